@@ -87,6 +87,15 @@ class Check:
                 if t + "/" + nm_ not in have:
                     have.add(t + "/" + nm_)
                     world["nodes"].append({"path": t + "/" + nm_, "type": "file", "content": "x" * rng.choice([1, 10, 100])})
+        if rng.random() < 0.12:
+            # many groups (more than a small-sort threshold) whose keys mix integers and text
+            t = tops[0]
+            exts = ["1", "2", "3", "5", "8", "9", "10", "11", "12", "20", "21", "100", "1a", "2b", "3c", "7z", "9x", "10a", "11b", "0x", "a", "b", "c", "d", "e", "f", "g", "05", "007", "zz", "Q", "42"]
+            for e in rng.sample(exts, rng.randint(22, len(exts))):
+                pth = "%s/m.%s" % (t, e)
+                if pth not in have:
+                    have.add(pth)
+                    world["nodes"].append({"path": pth, "type": "file", "content": "x" * rng.choice([1, 2, 10])})
         keys = rng.sample(GKEYS, rng.choice([1, 1, 2, 2]))
         aggs = ["count(*)"] + rng.sample(AGGS[1:], rng.choice([1, 2, 4, 6]))
         aggs = [a for a in AGGS if a in aggs]
